@@ -20,12 +20,16 @@ def host_files(work, seed):
     return out
 
 
-def populate_script(hf, r, fill_bytes, nfiles=40, xattrs=True, special=True, sparse=True):
+def populate_script(hf, r, fill_bytes, nfiles=40, xattrs=True, special=True, sparse=True, filler=0):
     """debugfs commands creating directories (one large enough for an htree), regular files up to
     fill_bytes in total, a fragmented/sparse file, symlinks, hard links, special files, xattrs"""
     cmds = ["mkdir d1", "mkdir d1/sub", "mkdir big", "mkdir empty", "mkdir d1/sub/x", "mkdir d1/sub/y"]
+    late = []
     for i in range(nfiles):
-        cmds.append("write %s big/f_%03d_%s" % (hf["tiny"] if i % 7 == 0 else "/dev/null", i, "n" * r.randint(0, 30)))
+        c = "write %s big/f_%03d_%s" % (hf["tiny"] if i % 7 == 0 and not filler else "/dev/null", i, "n" * r.randint(0, 30))
+        (late if filler else cmds).append(c)
+    if filler:
+        late += ["symlink big/sl_%02d /t%d" % (i, i) for i in range(8)]
     used = 0
     i = 0
     sizes = {"small": 600, "mid": 30000, "big": 400000, "huge": 2500000}
@@ -47,6 +51,14 @@ def populate_script(hf, r, fill_bytes, nfiles=40, xattrs=True, special=True, spa
         cmds += ["ea_set d1/plain user.big %s" % ("v" * 200), "ea_set d1 user.k v", "ea_set d1/sub/deep user.a 1"]
     if special:
         cmds += ["mknod d1/fifo p", "mknod d1/chr c 4 5", "mknod d1/blk b 8 1"]
+    if filler:
+        # fillers take the low inode numbers, the block-less files created after them land in high groups;
+        # removing the fillers leaves in-use inodes only there (a shrink must renumber them)
+        cmds.append("mkdir filler")
+        cmds += ["write /dev/null filler/x%04d" % i for i in range(filler)]
+        cmds += late
+        cmds += ["rm filler/x%04d" % i for i in range(filler)]
+        cmds.append("rmdir filler")
     cmds += ["set_inode_field d1/plain mode 0104755", "set_inode_field d1/sub/deep uid 1234", "set_inode_field d1/sub/deep gid 4321"]
     return cmds
 
@@ -64,6 +76,10 @@ def make_fs(src, path, opts, size, seed, fill=0.3, nfiles=40, populate=True, che
         hf = host_files(os.path.join(e2v.SCRATCH, "hostfiles"), 1)
         r = e2v.rng(seed, "populate")
         nbytes = os.path.getsize(path)
+        ff = kw.pop("filler_fraction", 0)
+        if ff:
+            import extfmt
+            kw["filler"] = min(int(extfmt.Fs(path).inodes_count * ff), 6000)
         cmds = populate_script(hf, r, int(nbytes * fill), nfiles=nfiles, **kw)
         rc, out = e2v.sh([T("debugfs/debugfs"), "-w", "-f", "-", path], input=("\n".join(cmds) + "\n").encode(), env=env, timeout=600)
         # debugfs 'link' leaves the link count to e2fsck (documented); normalise once
